@@ -141,6 +141,8 @@ MESSAGES = [
     "<b>bold", "bad </info> msg", "<b>x</info>", "<nonexistent>x</nonexistent>", "\\<escaped>", "C:\\dir\\", "ends with backslash \\",
     "a <b", "tail<", "</>", "<fg=red>r</fg=blue>", "50% <done>", "quote \" and ' here", "key", "a" * 120,
     "line1\\\nline2", "<error>", "if a<b>c: pass", "{} {0} %s",
+    # closes a tag it did not open and leaves another one open; leaves one open; closes unopened ones
+    "</info> x <error>", "</b> y <info>z", "a closing </b> tag", "</error>", "<fg=red>r", "x</fg=blue> <b>",
 ]
 EXC_KINDS = ["RuntimeError", "ValueError", "KeyError", "OSError", "long", "clikit", "ZeroDivisionError", "TypeError"]
 
@@ -327,7 +329,7 @@ def real_frames(e):
     return out
 
 
-def run_history(case):
+def run_history(case, shared=None):
     """the case's exception is raised once and rendered once per entry of case["renders"] ([{"pat", "verb"}]; pat = which
     directory ignore_files_in() gets: "none" | "lib" | "app") in this process -> one "render" event per render"""
     from clikit.api.io import flags as F
@@ -340,10 +342,10 @@ def run_history(case):
     events = []
     for r in case["renders"]:
         frames = [dict(f, ign=(f["dir"] == r["pat"])) for f in base]
-        bio = BufferedIO(supports_utf8=case["utf8"])
-        verb = {0: None, 1: F.VERBOSE, 2: F.VERY_VERBOSE, 3: F.DEBUG}[r["verb"]]
-        if verb is not None:
-            bio.set_verbosity(verb)
+        # a fresh I/O per render - or one I/O (one formatter with its style stack) for everything: shared[0]
+        bio = BufferedIO(supports_utf8=case["utf8"]) if shared is None else shared[0]
+        bio.clear_output()
+        bio.set_verbosity({0: F.NORMAL, 1: F.VERBOSE, 2: F.VERY_VERBOSE, 3: F.DEBUG}[r["verb"]])
         trace = ExceptionTrace(e)
         if r["pat"] != "none":
             trace.ignore_files_in("^" + re.escape({"lib": LIB, "app": APP}[r["pat"]] + os.sep))
@@ -364,6 +366,38 @@ def run_history(case):
                 raise T.MachineryError("the report wrote to the error output")
         events.append({"op": "render", "c": c, "o": o})
     return events
+
+
+def run_trace(case):
+    """one render, a history of renders of one exception, or - case["then"] = a second case - two reports written one after
+    the other on ONE I/O (what the first leaves on the formatter's style stack is there for the second)"""
+    if not case.get("then"):
+        return run_history(dict(case, renders=renders_of(case)))
+    from clikit.io.buffered_io import BufferedIO
+
+    shared = [BufferedIO(supports_utf8=case["utf8"])]
+    second = case["then"]
+    return (run_history(dict(case, renders=renders_of(case)), shared)
+            + run_history(dict(second, renders=renders_of(second)), shared))
+
+
+LEAVES_OPEN = ["<b>bold", "an <info>open tag", "</info> x <error>", "<error>", "<fg=red>r", "</b> y <info>z"]
+CLOSES_UNOPENED = ["bad </info> msg", "</info> x <error>", "a closing </b> tag", "</error>", "x</fg=blue> <b>", "<b>x</info>"]
+
+
+def random_pair_case(rng, k):
+    a, b = random_render_case(rng), random_render_case(rng)
+    a["msg"], b["msg"] = rng.choice(LEAVES_OPEN + MESSAGES[:6]), rng.choice(CLOSES_UNOPENED + MESSAGES[:6])
+    if rng.random() < 0.5:  # the second message closes exactly the tag the first one leaves open
+        tag = rng.choice(["info", "b", "error", "comment", "fg=red"])
+        a["msg"], b["msg"] = "an <%s>open tag" % tag, "bad </%s> msg" % tag
+    for c in (a, b):
+        c["origin"] = "file"
+        c["exc"] = rng.choice(["RuntimeError", "ValueError", "clikit", "long"])
+        c["chain"] = c["chain"][:2]
+    b["utf8"] = a["utf8"]
+    a["then"] = b
+    return a
 
 
 def renders_of(case):
@@ -573,7 +607,7 @@ def run(ctx):
         "backslash, string with an unbalanced closing tag, string and comment holding U+2028 / form feed / U+0085): every row not touched by a multi-row token is shown verbatim. "
         "Every emitted input is replayed on the real classes and compared.  Exceptions raised through generated source files "
         "(failing statement at varying positions incl. the first rows, multi-row statements and strings, comments, tabs, "
-        "non-ASCII, markup-like text, characters str.splitlines() takes for line ends: U+2028/2029, FF, NEL, FS/GS/RS), through exec'd and file-less code, with 27 adversarial messages x 8 exception kinds, "
+        "non-ASCII, markup-like text, characters str.splitlines() takes for line ends: U+2028/2029, FF, NEL, FS/GS/RS), through exec'd and file-less code, with 33 adversarial messages x 8 exception kinds, "
         "a cause, call chains through ignored / not ignored modules and recursion (direct, mutual) up to depth 60 are rendered "
         "at every verbosity, UTF-8 on/off, with/without an ignore pattern, simple/full; what was written is tokenised "
         "(head lines, listing entries, snippet rows with the source rows) and ErrorReportTrace decides every P-clause; the "
@@ -693,6 +727,13 @@ def _run(ctx, quick):
         cases.append(dict(case, kind="history"))
         ctx.count()
         ctx.nontriv(("hist", t))
+    # ---- code -> spec: two reports on one I/O
+    for t in range(150 if quick else 2000):
+        case = random_pair_case(ctx.rng, t)
+        traces.append(run_trace(case))
+        cases.append(dict(case, kind="pair"))
+        ctx.count()
+        ctx.nontriv(("pair", t))
     # ---- code -> spec: the highlighter on generated modules and on real Python files
     for t in range(400 if quick else 3000):
         src = make_source(ctx.rng, at_top=ctx.rng.random() < 0.2)
@@ -790,9 +831,9 @@ def replay(ctx, path):
                 esc = type(x).__name__
             cc = {"simple": True, "verb": 0, "ignoring": False, "name": [], "msg": [], "frames": [], "recursion": False, "origin": "corpus"}
             ev = {"op": "render", "c": cc, "o": {"esc": esc, "lines": [], "head": [], "listing": [], "snippets": [] if esc else [_snippet(c["path"], c["line"], rows)]}}
-        elif c["kind"] == "history":
+        elif c["kind"] in ("history", "pair"):
             ev = None
-            ctx.validate(SPEC, "ErrorReportTrace", "ErrorReportTrace.cfg", [run_history(c)], cases=[c], name="replay")
+            ctx.validate(SPEC, "ErrorReportTrace", "ErrorReportTrace.cfg", [run_trace(c)], cases=[c], name="replay")
         else:
             ev = run_render(c)
         if ev is not None:
